@@ -1125,6 +1125,13 @@ impl NamingActor {
             }
         }
         for (service_key, client_key) in remove_keys {
+            // the distro data reconciles the ephemeral instances of gRPC connections;
+            // persistent instances are replicated (and removed) through Raft
+            if let Some(instance) = self.get_instance(&service_key, &client_key) {
+                if !instance.ephemeral {
+                    continue;
+                }
+            }
             self.remove_instance(&service_key, &client_key, None);
         }
         new_items
